@@ -105,7 +105,7 @@ func c01Enumerate(tier string, seed int64, emit func(string, any)) {
 	// (ii) typed-operand matrix (named values from the prelude)
 	mcfg := cfgs
 	if !thorough {
-		mcfg = []drv.Cfg{cfgs[0], cfgs[4], cfgs[6]}
+		mcfg = []drv.Cfg{cfgs[0], cfgs[6]}
 	}
 	mcfg = append(mcfg[:len(mcfg):len(mcfg)], hooked)
 	gen.Matrix(func(s string) {
@@ -117,7 +117,7 @@ func c01Enumerate(tier string, seed int64, emit func(string, any)) {
 	// self-referential one, bodies that are not valid syntax, native object / function), with observers installed
 	host := hooked
 	host.Host, host.OpLimit = true, 3000
-	gen.MatrixOver(drv.HostValues, append(gen.ValuesSmall[:len(gen.ValuesSmall):len(gen.ValuesSmall)], drv.HostValues...), func(s string) {
+	gen.MatrixOver(drv.HostValues, append(gen.ValuesSmall[:len(gen.ValuesSmall):len(gen.ValuesSmall)], "gc", "gf", "gn"), func(s string) {
 		emit("host values", c01Case{Pre: gen.Prelude, Srcs: []string{s, s}, Cfg: host})
 	})
 	// (iii) ladders
@@ -191,7 +191,9 @@ func c01Enumerate(tier string, seed int64, emit func(string, any)) {
 	// (v) histories: ordered pairs on one VM
 	gen.Histories(func(a, b string) {
 		emit("histories", c01Case{Srcs: []string{a, b}, Cfg: cfgs[0]})
-		emit("histories", c01Case{Srcs: []string{a, b}, Cfg: hooked})
+		if thorough || (len(a)+len(b))%2 == 0 {
+			emit("histories", c01Case{Srcs: []string{a, b}, Cfg: hooked})
+		}
 		if thorough {
 			emit("histories", c01Case{Srcs: []string{a, b}, Cfg: cfgs[4]})
 		}
